@@ -96,6 +96,16 @@ package handlers
 //@   assigns nothing
 //@ func (*baseHandler).handleCommand$1
 //@   requires [captured] h != nil && cancel != nil
+
+// Every command gets its own cancellable context, and the end of the session
+// cancels it: before the command's callback runs, a watcher goroutine for THIS
+// command's cancel function has been started (C13: a read queued at a limiter
+// gives up when its session ends).
+//@ func (*baseHandler).handleCommand
+//@   ghost-init g_watched == 0
+//@   at-call handleCommand$1 [watcher-cancels-this-command] captured_cancel == cancel
+//@   at-call handleCommand$1 effect g_watched == 1
+//@   at-call dynamic: [session-end-cancels-the-command] g_watched == 1
 //@ func (*baseHandler).shutdown$1
 //@   requires [captured] h != nil
 //@ func (*baseHandler).handleOptions$1
